@@ -362,8 +362,11 @@ contract('Queue._retry_later', module=M, props=['C01', 'C12', 'C13', 'C03'],
          modifies=['contents(self.queued)', 'contents(self.queued_ids)', 'contents(self.active_ids)',
                    'self.wake.flag', 'contents(self.removed)', 'contents(self.bounces)',
                    'self.store.rs_attempts', 'self.store.rs_ts', 'any(Reply).message'],
-         loops={0: dict(modifies=['contents(self.bounces)', 'any(Reply).message'],
+         loops={0: dict(modifies=['contents(self.bounces)', 'any(Reply).message', 'contents(self.removed)',
+                                  'contents(self.queued_ids)', 'contents(self.active_ids)'],
                         inv=['forall(_seq0, lambda g: g[0] != None and g[0].message is not None)',
+                             'setv(self.removed) == old(setv(self.removed)) and setv(self.queued_ids) == old(setv(self.queued_ids)) '
+                             'and setv(self.active_ids) == old(setv(self.active_ids))',
                              'implies(not bool(envelope.sender), len(self.bounces) == old(len(self.bounces)))',
                              'implies(bool(envelope.sender), len(self.bounces) == old(len(self.bounces)) + _k)',
                              'forall(range(0, _k), lambda j: implies(bool(envelope.sender), '
@@ -430,9 +433,216 @@ contract('Queue._handle_partial_relay', module=M, props=['C01', 'C03', 'C13'],
                              '   and dict_has(results, t[0]) and permanent(dict_get(results, t[0])))',
                              'forall(range(0, _k), lambda j: implies(transient(dict_get(results, dict_keys(results)[j])), len(tempfails) > 0))',
                              'forall(range(0, _k), lambda j: implies(permanent(dict_get(results, dict_keys(results)[j])), len(permfails) > 0))']),
-                1: dict(modifies=['contents(self.bounces)'],
-                        inv=['implies(not bool(envelope.sender), len(self.bounces) == old(len(self.bounces)))',
+                1: dict(modifies=['contents(self.bounces)', 'contents(self.removed)',
+                                  'contents(self.queued_ids)', 'contents(self.active_ids)'],
+                        inv=['setv(self.removed) == old(setv(self.removed)) and setv(self.queued_ids) == old(setv(self.queued_ids)) '
+                             'and setv(self.active_ids) == old(setv(self.active_ids))',
+                             'implies(not bool(envelope.sender), len(self.bounces) == old(len(self.bounces)))',
                              'implies(bool(envelope.sender), len(self.bounces) == old(len(self.bounces)) + _k)',
                              'forall(range(0, _k), lambda j: implies(bool(envelope.sender), '
                              '       self.bounces[old(len(self.bounces)) + j][0] is _seq1[j][1]))',
                              'forall(range(0, old(len(self.bounces))), lambda j: same(self.bounces[j], old(seq(self.bounces))[j]))'])})
+
+# ---------------------------------------------------------------------------- one delivery attempt (C01)
+klass('Relay', ghost={'last_outcome': 'Int'})
+# outcome codes of the last Relay._attempt call: 0 None/Reply, 1 mapping, 2 sequence, 3 transient, 4 permanent, 5 other exception
+extern('Relay._attempt', params={'self': 'Relay', 'envelope': 'Envelope', 'attempts': 'Int'},
+       returns='Union[None, Reply, Dict[Str, RcptResult], List[RcptResult]]', yields=True,
+       modifies=['self.last_outcome'],
+       raises={'TransientRelayError': ['exc.reply != None', 'exc.reply.message is not None', 'self.last_outcome == 3'],
+               'PermanentRelayError': ['exc.reply != None', 'exc.reply.message is not None', 'self.last_outcome == 4'],
+               'OtherException': ['self.last_outcome == 5']},
+       ensures=['implies(result is None or is_type(result, Reply), self.last_outcome == 0)',
+                'implies(is_type(result, Dict[Str, RcptResult]), self.last_outcome == 1 '
+                '   and RESULTS_ok(cast(result, Dict[Str, RcptResult]), envelope))',
+                'implies(is_type(result, List[RcptResult]), self.last_outcome == 2 '
+                '   and len(cast(result, List[RcptResult])) == len(envelope.recipients) '
+                '   and forall(cast(result, List[RcptResult]), lambda v: implies(isinstance(v, RelayError), '
+                '        cast(v, RelayError).reply != None and cast(v, RelayError).reply.message is not None)))',
+                'seq(envelope.recipients) == old(seq(envelope.recipients))', 'envelope.sender == old(envelope.sender)'],
+       notes='relay result contract (Relay.attempt docstring + C01): None | Reply | mapping keyed by exactly the '
+             'recipients | sequence of equal length; raises Transient/Permanent RelayError (with a reply) or '
+             'anything else; a RelayError is never the top-level return value; relay policies leave the '
+             'recipient list unchanged during the attempt')
+
+
+def _py_dict(st, args):
+    """dict(zip(keys, values)): a fresh dict whose key set is {keys[i] | i < n} and that maps each key
+    to the value paired with its LAST occurrence (n = min of the two lengths)."""
+    from pyvc import loops
+    it = loops.as_iter(st, args[0])
+    st.nfresh += 1
+    k = z3.Int('k!pd%d' % st.nfresh)
+    probe = it.item(k)
+    if probe.t.kind != 'xtuple' or len(probe.z) != 2:
+        raise Undecided('dict(...) of non-pairs')
+    kv, vv = probe.z
+    kt, vt = kv.t, vv.t
+    ks = T.sort_of(kt)
+    ref = st.new_ref('dict')
+    d = Val(T.TDict(kt, vt), ref)
+    keys = B.seq_fresh(st, ks, 'dk')
+    mp = st.fresh(z3.ArraySort(ks, T.sort_of(vt)), 'dm')
+    has = st.fresh(z3.ArraySort(ks, z3.BoolSort()), 'dh')
+    st.dict_store(ref, kt, vt, keys, mp, has)
+    st.assume(st.dict_wf(ref, kt, vt))
+    last = z3.Function('last!%d' % st.nfresh, ks, z3.IntSort())
+    x = z3.Const('x!pd', ks)
+    key_at = lambda kk: z3.substitute(kv.z, (k, kk))
+    val_at = lambda kk: z3.substitute(vv.z, (k, kk))
+    st.assume(z3.ForAll([k], z3.Implies(z3.And(0 <= k, k < it.n),
+                                        z3.And(z3.Select(has, key_at(k)), k <= last(key_at(k)))),
+                        patterns=[key_at(k)]))
+    st.assume(z3.ForAll([x], z3.Implies(z3.Select(has, x),
+                                        z3.And(0 <= last(x), last(x) < it.n, key_at(last(x)) == x,
+                                               z3.Select(mp, x) == val_at(last(x)))),
+                        patterns=[z3.Select(has, x)]))
+    return d
+
+
+calls.SPECFUNS['py_dict'] = _py_dict
+
+
+contract('Queue._attempt', module=M, props=['C01', 'C03', 'C13'],
+         params={'self': 'Queue', 'id': 'Str', 'envelope': 'Envelope', 'attempts': 'Int'},
+         requires=['QUEUE_ok(self)', 'self.relay != None', 'envelope != None', 'envelope.recipients != None',
+                   'id in self.active_ids', 'id not in self.queued_ids',
+                   'distinct_by(envelope.recipients, lambda r: r)',
+                   'seq(envelope.recipients) == rs_out(self.store, id)'],
+         ensures=[
+             # success for everybody: removed, nothing bounced
+             'implies(self.relay.last_outcome == 0, id in self.removed and len(self.bounces) == old(len(self.bounces)) '
+             '        and setv(self.pending_retry) == old(setv(self.pending_retry)))',
+             # transient failure: a retry is pending, the message is not removed, nothing is bounced yet
+             'implies(self.relay.last_outcome == 3, id in self.pending_retry and len(self.bounces) == old(len(self.bounces)) '
+             '        and setv(self.removed) == old(setv(self.removed)))',
+             # permanent failure: removed, and bounced iff there is a sender
+             'implies(self.relay.last_outcome == 4, id in self.removed '
+             '        and len(self.bounces) == old(len(self.bounces)) + ite(bool(envelope.sender), 1, 0) '
+             '        and setv(self.pending_retry) == old(setv(self.pending_retry)))',
+             'implies(self.relay.last_outcome == 4 and bool(envelope.sender), '
+             '        self.bounces[len(self.bounces) - 1][0] is envelope)'],
+         raises={'OtherException': [
+             # unexpected exception: treated as transient (retry pending), then propagated
+             'self.relay.last_outcome == 5', 'id in self.pending_retry',
+             'setv(self.removed) == old(setv(self.removed))', 'len(self.bounces) == old(len(self.bounces))']},
+         modifies=['contents(self.queued)', 'contents(self.queued_ids)', 'contents(self.active_ids)',
+                   'self.wake.flag', 'contents(self.removed)', 'contents(self.bounces)',
+                   'contents(self.pending_retry)', 'self.relay.last_outcome',
+                   'self.store.rs_attempts', 'self.store.rs_ts', 'self.store.rs_has', 'self.store.rs_rcpts',
+                   'self.store.rs_nrcpts', 'self.store.last_marks', 'self.store.last_marked_id',
+                   'self.store.n_marks', 'any(Reply).message'])
+
+contract('Queue._dequeue', module=M, props=['C03', 'C12'],
+         params={'self': 'Queue', 'id': 'Str'},
+         requires=['QUEUE_ok(self)', 'forall(Str, lambda x: implies(x in self.attempting, x in self.active_ids))'],
+         ensures=['implies(id not in self.store.rs_has, setv(self.active_ids) == old(setv(self.active_ids)) '
+                  '        and setv(self.attempting) == old(setv(self.attempting)))',
+                  'implies(id in self.store.rs_has, id in self.active_ids)',
+                  'implies(id in self.store.rs_has and old(id not in self.active_ids), id in self.attempting)',
+                  'forall(Str, lambda x: implies(x in self.attempting, x in self.active_ids))'],
+         modifies=['contents(self.active_ids)', 'contents(self.attempting)'])
+
+# ---------------------------------------------------------------------------- enqueue (C02, C03)
+T.alias('WriteResult', 'Union[Str, QueueError, OtherException]')
+klass('QueuePolicy')
+klass('Queue', fields={'queue_policies': 'List[QueuePolicy]'},
+      ghost={'last_written': 'List[Envelope]'})
+
+
+def _pool_imap(st, args, kw):
+    """Queue._pool_imap('store', self.store.write, envelopes, repeat(now)) -- ASSUMED here (its own body is
+    checked separately): one write per envelope, all joined before it returns; element k of the result is the
+    id returned by the k-th write or the exception it raised."""
+    self_v, which, func, envs = args[0], args[1], args[2], args[3]
+    if func.z.kind != 'bound' or func.z.name != 'write':
+        raise Undecided('_pool_imap of %r' % (func.z,))
+    s, et = B.seq_of(st, envs)
+    rt = T.parse_type('WriteResult')
+    r = B.seq_fresh(st, T.sort_of(rt), 'ids')
+    st.assume(r.n == s.n)
+    ref = st.new_ref('list')
+    st.list_store(ref, rt, r)
+    res = Val(T.TList(rt), ref)
+    k = z3.Int('k!imap')
+    elem = Val(rt, z3.Select(r.arr, k))
+    st.qdepth += 1
+    st.qdepth -= 1
+    # typing of the elements
+    P = T.PyVal
+    ez = z3.Select(r.arr, k)
+    st.assume(z3.ForAll([k], z3.Implies(z3.And(0 <= k, k < r.n),
+                                        z3.Or(P.is_s(ez),
+                                              z3.And(P.is_o(ez), P.o_v(ez) > 0, P.o_v(ez) < st.alloc,
+                                                     z3.Or(st.isinstance_term(P.o_v(ez), 'QueueError'),
+                                                           st.isinstance_term(P.o_v(ez), 'OtherException'))))),
+                        patterns=[ez]))
+    st.write_field(self_v.z, 'Queue', 'last_written', envs)
+    return res
+
+
+contract('Queue._pool_imap', kind='extern', model=_pool_imap,
+         notes='Queue._pool_imap assumed at the enqueue call site: one joined write per envelope, results in order')
+
+extern('Queue._run_policies#call', params={'self': 'Queue', 'envelope': 'Envelope'})
+
+contract('Queue.enqueue', module=M, props=['C02', 'C03'],
+         params={'self': 'Queue', 'envelope': 'Envelope'},
+         returns='List[Tuple[Envelope, WriteResult]]',
+         requires=['QUEUE_ok(self)', 'envelope != None', 'self.store != None',
+                   'forall(Str, lambda x: implies(x in self.attempting, x in self.active_ids))'],
+         ensures=['result != None', 'len(result) == len(self.last_written)',
+                  # every element pairs the k-th envelope with the outcome of ITS write; outcomes are ids or QueueErrors
+                  'forall(range(0, len(result)), lambda k: result[k][0] is self.last_written[k] '
+                  '       and (isinstance(result[k][1], str) or isinstance(result[k][1], QueueError)))',
+                  # C03: an attempt is started only for ids not already active, and the id is marked active
+                  'forall(range(0, len(result)), lambda k: implies(isinstance(result[k][1], str) and self.relay != None, '
+                  '       cast(result[k][1], Str) in self.active_ids))',
+                  'forall(Str, lambda x: implies(x in self.attempting, x in self.active_ids))'],
+         raises={'OtherException': []},
+         modifies=['contents(self.active_ids)', 'contents(self.attempting)', 'self.last_written'],
+         loops={0: dict(modifies=['contents(self.active_ids)', 'contents(self.attempting)'],
+                        inv=['forall(Str, lambda x: implies(x in self.attempting, x in self.active_ids))',
+                             'forall(range(0, _k), lambda k: isinstance(results[k][1], str) or isinstance(results[k][1], QueueError))',
+                             'forall(range(0, _k), lambda k: implies(isinstance(results[k][1], str) and self.relay != None, '
+                             '       cast(results[k][1], Str) in self.active_ids))',
+                             'forall(Str, lambda x: implies(old(x in self.active_ids), x in self.active_ids))'])})
+
+# ---------------------------------------------------------------------------- queue policies chain (C16)
+extern('QueuePolicy.apply', params={'self': 'QueuePolicy', 'envelope': 'Envelope'},
+       returns='Opt[List[Envelope]]', modifies=['envelope.*', 'fresh'],
+       ensures=['implies(result != None, fresh(result) and is_list(result) and distinct_by(result, lambda e: e) '
+                '        and forall(result, lambda e: e != None and (e is envelope or fresh(e))))'],
+       notes='abstract queue policy (C16 proves this contract for each built-in policy): returns a falsy value, or a '
+             'new list of envelopes each of which is the input envelope or a new object')
+
+contract('Queue._run_policies.recurse', module=M, props=['C16'],
+         params={'current': 'Envelope', 'i': 'Int', 'self': 'Queue', 'results': 'List[Envelope]'},
+         requires=['results != None', 'is_list(results)', 'current != None', 'current in seq(results)',
+                   'forall(results, lambda e: allocated(e))',
+                   'self.queue_policies != None', 'forall(self.queue_policies, lambda p: p != None)', 'i >= 0',
+                   'self.queue_policies is not results'],
+         ensures=[
+             # only `current` may be replaced: every other envelope already produced stays in the result list
+             'forall(range(0, old(len(results))), lambda k: implies(old(seq(results))[k] is not current, '
+             '       old(seq(results))[k] in seq(results)))',
+             'forall(results, lambda e: allocated(e))'],
+         modifies=['contents(results)', 'current.*', 'fresh'],
+         loops={0: dict(modifies=['contents(results)', 'current.*', 'fresh'],
+                        inv=['results != None and is_list(results) and ret != None and ret is not results',
+                             'forall(range(0, old(len(results))), lambda k: implies(old(seq(results))[k] is not current, '
+                             '       old(seq(results))[k] in seq(results)))',
+                             'forall(range(_k, len(ret)), lambda j: ret[j] in seq(results))',
+                             'forall(ret, lambda e: e != None and (e is current or fresh(e)))',
+                             'forall(results, lambda e: allocated(e))',
+                             'distinct_by(ret, lambda e: e)',
+                             'self.queue_policies != None and forall(self.queue_policies, lambda p: p != None) '
+                             'and self.queue_policies is not results'])})
+
+contract('Queue._run_policies', module=M, props=['C16', 'C02'],
+         params={'self': 'Queue', 'envelope': 'Envelope'},
+         returns='List[Envelope]',
+         requires=['envelope != None', 'self.queue_policies != None', 'forall(self.queue_policies, lambda p: p != None)'],
+         ensures=['result != None', 'fresh(result)', 'is_list(result)',
+                  'forall(result, lambda e: allocated(e))'],
+         modifies=['envelope.*', 'fresh'])
